@@ -75,6 +75,10 @@ func (g *gen) opts(typ string) []Opt {
 			}
 		}
 	}
+	// an inline UNIQUE option (kept as a column option by the reader, printed back as UNIQUE KEY)
+	if g.dialect == "mysql" && g.rng.Intn(12) == 0 {
+		os = append(os, Opt{Kind: "uniq"})
+	}
 	if !g.noComments && g.dialect == "mysql" && g.rng.Intn(5) == 0 {
 		os = append(os, Opt{Kind: "comment", Val: g.pick([]string{"note", "the key", "it's", "PRIMARY KEY of x", "the primary key", "a PRIMARY KEY b"})})
 	}
